@@ -64,10 +64,13 @@ def imported_events(m, fn, depth=0):
     opens = OPEN_HELPERS.get(id(m), {})
     for nid, g in m.callees(fn):
         n = fn.nodes[nid]
-        if n['k'] != 'CXXMemberCallExpr' or id(g) not in opens or g.tname in no_inline(m):
+        if id(g) not in opens or g.tname in no_inline(m):
             continue
-        if base.tt.t(n.get('obj', -1)) != ('this',):
-            continue
+        if n['k'] == 'CXXMemberCallExpr':
+            if base.tt.t(n.get('obj', -1)) != ('this',):
+                continue
+        elif not (n['k'] == 'CallExpr' and g.record == fn.record and fn.record is not None):
+            continue       # (a static member helper of the same class)
         sub = {}
         for ix, pd in enumerate(g.params):
             if ix < len(n.get('args', [])):
@@ -80,7 +83,14 @@ def imported_events(m, fn, depth=0):
             ex.update(via=g.display(), conditional=cond, inner_node=e.node)
             if 'owner' in ex:
                 ex['owner'] = ex['owner']
-            out.append(Ev(e.kind, nid, tuple(subst(a, sub) if isinstance(a, tuple) else a for a in e.args), fn, ex))
+            args = tuple(subst(a, sub) if isinstance(a, tuple) else a for a in e.args)
+            if ex.get('listparam') and args and isinstance(args[0], tuple) and args[0][0] == 'listof':
+                lt = base.tt.t_resolved(args[0][1]) if hasattr(base.tt, 't_resolved') else args[0][1]
+                if lt[0] == 'idx' and base.role(lt[1]) == 'A':
+                    args = (lt[2],) + args[1:]
+                    ex['owner'] = lt[1]
+                    ex.pop('listparam')
+            out.append(Ev(e.kind, nid, args, fn, ex))
     return out
 
 
@@ -653,14 +663,29 @@ def removed_count_term(ctx, ev, t):
     x = ev.args[0]
 
     def is_size_of_list(u):
+        if u[0] == 'mcall' and u[1] == 'std::list::size' and x[0] == 'listof':
+            return u[2] == x[1]        # (inside a helper that receives the list by reference)
         return u[0] == 'mcall' and u[1] == 'std::list::size' and u[2][0] == 'idx' and u[2][2] == x and \
             ctx.ev.role(u[2][1]) == 'A'
     if t[0] == 'cast':
         t = t[2]
+    if t[0] in ('call', 'mcall') and ev.extra.get('inner_node') is not None:
+        # the count is what the helper that performed the removal returns: decide it inside the helper
+        n = f.nodes[ev.node]
+        g = f.unit.function_for_decl(n['callee']) if 'callee' in n else None
+        if g is None or ctx.tt.t(ev.node) != t:
+            return False
+        inner = [e for e in events_of(ctx.m, g).events if e.node == ev.extra['inner_node']]
+        rets = [r for r in g.nodes if r['k'] == 'ReturnStmt' and g.children(r['i'])]
+        if len(inner) != 1 or not rets:
+            return False
+        gctx = Ctx(ctx.m, g)
+        return all(g.can_reach(inner[0].node, r['i']) and removed_count_term(gctx, inner[0], gctx.tt.t(g.children(r['i'])[0]))
+                   for r in rets)
     if t[0] == 'var':
         defs = var_defs(f, t[1])
         if len(defs) == 1 and defs[0][1] >= 0:
-            if not f.can_reach(ev.node, defs[0][0]):
+            if not f.can_reach(ev.node, defs[0][0]) and f.strip(defs[0][1]) != ev.node:
                 return False
             return removed_count_term(ctx, ev, ctx.tt.t(defs[0][1]))
         return False
@@ -803,7 +828,7 @@ class PairEngine:
             writes = [e for e in ev.state_writes()]
             if not writes:
                 continue
-            has_A = any(e.kind.startswith('A.') for e in ev.events)
+            has_A = any(e.kind.startswith('A.') and not e.extra.get('listparam') for e in ev.events)
             probe = PairEngine.__new__(PairEngine)
             probe.m = m
             probe.classes = None
